@@ -17,6 +17,7 @@ import (
 	banktypes "github.com/cosmos/cosmos-sdk/x/bank/types"
 	"github.com/ethereum/go-ethereum/signer/core/apitypes"
 
+	haqqtypes "github.com/haqq-network/haqq/types"
 	zz "github.com/haqq-network/haqq/zzverif"
 )
 
@@ -70,11 +71,19 @@ func VerifC03_Eip712DirectCoverage() {
 	if err != nil {
 		panic(err)
 	}
-	switch zz.Choose("extensionOptions", 3) {
+	dyn, err := codectypes.NewAnyWithValue(&haqqtypes.ExtensionOptionDynamicFeeTx{MaxPriorityPrice: zz.AnyAmount("maxPriorityPrice", 64)})
+	if err != nil {
+		panic(err)
+	}
+	switch zz.Choose("extensionOptions", 5) {
 	case 1:
 		body.ExtensionOptions = []*codectypes.Any{ext}
 	case 2:
 		body.NonCriticalExtensionOptions = []*codectypes.Any{ext}
+	case 3: // the dynamic-fee option the ante handler acts on (it caps the priority fee)
+		body.ExtensionOptions = []*codectypes.Any{dyn}
+	case 4:
+		body.NonCriticalExtensionOptions = []*codectypes.Any{dyn}
 	}
 	gas := zz.AnyUint64("gasLimit")
 	feeAmt := zz.AnyAmount("feeAmount", 100)
